@@ -24,6 +24,11 @@ pub enum Form {
     OfKeyNested(u64),
     AllKeyStrings,
     OfKeyStrings(u64),
+    /// string members of mixed kinds (digit i of the mask in base 3: contains / case-insensitive
+    /// contains / regex), which the loader batches into different searches
+    AllKeyStringsMixed(u32),
+    OfKeyStringsMixed(u64, u32),
+    PlainStringsMixed(u32),
     PlainList,
     Not,
     NotKey,
@@ -102,11 +107,23 @@ pub fn rule_for(form: &Form, k: usize) -> RuleAst {
             cond = Cond::id("A");
         }
         Form::AllKeyStrings => {
-            idents.push(("A".into(), Ident::Map(vec![(Key::with("k", KMod::All), RVal::List((0..k).map(|i| RVal::Str(format!("*m{}*", i))).collect()))])));
+            idents.push(("A".into(), Ident::Map(vec![(Key::with("k", KMod::All), RVal::List((0..k).map(|i| RVal::Str(format!("*m{}.*", i))).collect()))])));
             cond = Cond::id("A");
         }
         Form::OfKeyStrings(n) => {
-            idents.push(("A".into(), Ident::Map(vec![(Key::with("k", KMod::Of(*n)), RVal::List((0..k).map(|i| RVal::Str(format!("*m{}*", i))).collect()))])));
+            idents.push(("A".into(), Ident::Map(vec![(Key::with("k", KMod::Of(*n)), RVal::List((0..k).map(|i| RVal::Str(format!("*m{}.*", i))).collect()))])));
+            cond = Cond::id("A");
+        }
+        Form::AllKeyStringsMixed(mask) => {
+            idents.push(("A".into(), Ident::Map(vec![(Key::with("k", KMod::All), mixed_members(k, *mask))])));
+            cond = Cond::id("A");
+        }
+        Form::OfKeyStringsMixed(n, mask) => {
+            idents.push(("A".into(), Ident::Map(vec![(Key::with("k", KMod::Of(*n)), mixed_members(k, *mask))])));
+            cond = Cond::id("A");
+        }
+        Form::PlainStringsMixed(mask) => {
+            idents.push(("A".into(), Ident::Map(vec![(Key::plain("k"), mixed_members(k, *mask))])));
             cond = Cond::id("A");
         }
         Form::PlainList => {
@@ -133,11 +150,28 @@ pub fn rule_for(form: &Form, k: usize) -> RuleAst {
     RuleAst { idents, cond, tp: vec![], tn: vec![] }
 }
 
+fn mixed_members(k: usize, mask: u32) -> RVal {
+    let mut m = mask;
+    RVal::List(
+        (0..k)
+            .map(|i| {
+                let kind = m % 3;
+                m /= 3;
+                RVal::Str(match kind {
+                    0 => format!("*m{}.*", i),
+                    1 => format!("i*M{}.*", i),
+                    _ => format!("?m{}\\.", i),
+                })
+            })
+            .collect(),
+    )
+}
+
 fn uses_k_object(form: &Form) -> bool {
     matches!(form, Form::AllKeyNested | Form::OfKeyNested(_) | Form::PlainList)
 }
 fn uses_k_string(form: &Form) -> bool {
-    matches!(form, Form::AllKeyStrings | Form::OfKeyStrings(_))
+    matches!(form, Form::AllKeyStrings | Form::OfKeyStrings(_) | Form::AllKeyStringsMixed(_) | Form::OfKeyStringsMixed(..) | Form::PlainStringsMixed(_))
 }
 
 /// the document realising an operand vector (0 = T, 1 = F, 2 = M); None if the form cannot
@@ -171,9 +205,9 @@ pub fn doc_for(form: &Form, vec: &[u8]) -> Option<DVal> {
 fn expected(form: &Form, sets: &[TS]) -> TS {
     match form {
         Form::AndChain | Form::Mapping => and_ordered(sets),
-        Form::OrChain | Form::Sequence | Form::PlainList => or3(sets),
-        Form::AllIdentMap | Form::AllIdentSeq | Form::AllKeyNested | Form::AllKeyStrings => all3(sets),
-        Form::OfIdentMap(n) | Form::OfIdentSeq(n) | Form::OfKeyNested(n) | Form::OfKeyStrings(n) => of3(sets, *n),
+        Form::OrChain | Form::Sequence | Form::PlainList | Form::PlainStringsMixed(_) => or3(sets),
+        Form::AllIdentMap | Form::AllIdentSeq | Form::AllKeyNested | Form::AllKeyStrings | Form::AllKeyStringsMixed(_) => all3(sets),
+        Form::OfIdentMap(n) | Form::OfIdentSeq(n) | Form::OfKeyNested(n) | Form::OfKeyStrings(n) | Form::OfKeyStringsMixed(n, _) => of3(sets, *n),
         Form::Not | Form::NotKey => not3(sets[0]),
         Form::NotGroupAnd => not3(and_ordered(sets)),
         Form::NotGroupOr => not3(or3(sets)),
@@ -190,18 +224,71 @@ pub fn forms_for(k: usize) -> Vec<Form> {
         v.push(Form::Not);
         v.push(Form::NotKey);
     }
-    for n in 0..=(k as u64 + 1) {
+    let ns: Vec<u64> = if k <= 5 { (0..=(k as u64 + 1)).collect() } else { vec![0, 1, 2, k as u64 / 2, k as u64 - 1, k as u64, k as u64 + 1] };
+    for n in ns.iter().cloned() {
         v.push(Form::OfIdentMap(n));
         v.push(Form::OfIdentSeq(n));
         v.push(Form::OfKeyNested(n));
         v.push(Form::OfKeyStrings(n));
     }
+    if (2..=4).contains(&k) {
+        for mask in 1..3u32.pow(k as u32) {
+            v.push(Form::AllKeyStringsMixed(mask));
+            v.push(Form::PlainStringsMixed(mask));
+            for n in ns.iter().cloned() {
+                v.push(Form::OfKeyStringsMixed(n, mask));
+            }
+        }
+    }
     v
+}
+
+/// operand vectors for arity k: all 3^k up to arity 5, beyond that the uniform vectors, every
+/// vector with one deviating operand at the first / middle / last position, and a seeded sample
+fn vectors_for(k: usize, salt: u64) -> Vec<Vec<u8>> {
+    if k <= 5 {
+        return (0..3usize.pow(k as u32))
+            .map(|code| {
+                let mut c = code;
+                (0..k)
+                    .map(|_| {
+                        let d = (c % 3) as u8;
+                        c /= 3;
+                        d
+                    })
+                    .collect()
+            })
+            .collect();
+    }
+    let mut out: Vec<Vec<u8>> = vec![];
+    for base in 0..3u8 {
+        out.push(vec![base; k]);
+        for dev in 0..3u8 {
+            if dev != base {
+                for at in [0, 1, k / 2, k - 2, k - 1] {
+                    let mut v = vec![base; k];
+                    v[at] = dev;
+                    out.push(v);
+                }
+            }
+        }
+    }
+    let mut rng = crate::prng::Rng::new(salt, "C06-vectors", k as u64);
+    for _ in 0..40 {
+        let w = [rng.below(100) as u32, rng.below(100) as u32, rng.below(60) as u32];
+        out.push((0..k).map(|_| rng.weighted(&[w[0] + 1, w[1] + 1, w[2] + 1]) as u8).collect());
+    }
+    out
 }
 
 pub fn run(ctx: &Ctx) -> i32 {
     let mut work: Vec<(Form, usize)> = vec![];
-    for k in 1..=4usize {
+    // complete up to arity 5; arities around the sizes at which implementations switch
+    // representation (8, 16, 32, 64 operands) with sampled operand vectors
+    for k in [1usize, 2, 3, 4, 5, 8, 9, 16, 17, 33, 64, 65] {
+        if ctx.quick() && k > 33 {
+            continue;
+        }
         for f in forms_for(k) {
             work.push((f, k));
         }
@@ -224,14 +311,9 @@ pub fn run(ctx: &Ctx) -> i32 {
         neg.cond = Cond::not(Cond::Paren(Box::new(ast.cond.clone())));
         let neg_rule = neg.to_text().and_then(|t| eng::load_ok(&t));
         let optimised: Vec<(Sw, tau_engine::Rule)> = Sw::ALL16.iter().skip(1).filter_map(|s| eng::optimise(&rule, *s).ok().map(|r| (*s, r))).collect();
-        let total = 3usize.pow(*k as u32);
-        for code in 0..total {
-            let mut vec = vec![];
-            let mut c = code;
-            for _ in 0..*k {
-                vec.push((c % 3) as u8);
-                c /= 3;
-            }
+        let vectors = vectors_for(*k, ctx.seed);
+        let total = vectors.len();
+        for (code, vec) in vectors.into_iter().enumerate() {
             let Some(doc) = doc_for(form, &vec) else { continue };
             let sets: Vec<TS> = vec.iter().map(|v| [T, F, M][*v as usize]).collect();
             let exp = expected(form, &sets);
@@ -297,7 +379,7 @@ pub fn run(ctx: &Ctx) -> i32 {
         ctx,
         rep,
         Meta {
-            rule: "complete enumeration: forms {binary and/or chain, mapping, sequence of mappings, all(X)/of(X,n) over map and sequence identifiers, all(k)/of(k,n)/plain list over nested-mapping members and over string members, not, not(k), not over groups} x arity 1..4 x every operand vector in {T,F,M}^k x n in 0..k+1; observed three-valued (hook H2, cross-checked with the not-probe pair) against the tables of the statement. non-trivial = cell with at least one F or M operand; distinct = (form, arity, vector, n)".into(),
+            rule: "complete enumeration: forms {binary and/or chain, mapping, sequence of mappings, all(X)/of(X,n) over map and sequence identifiers, all(k)/of(k,n)/plain list over nested-mapping members and over string members, not, not(k), not over groups} x arity 1..5 x every operand vector in {T,F,M}^k x n in 0..k+1, string members also in every mix of kinds (contains / case-insensitive contains / regex, arity 2..4), and arities 8, 9, 16, 17, 33 (64, 65 thorough) with uniform, one-deviation and sampled vectors and thresholds {0,1,2,k/2,k-1,k,k+1}; observed three-valued (hook H2, cross-checked with the not-probe pair) against the tables of the statement. non-trivial = cell with at least one F or M operand; distinct = (form, arity, vector, n)".into(),
             exhaustive: true,
             assumptions: vec!["where the statement fixes only truth (all/of when not true) false vs missing is recorded under counters.pinned.*, not judged".into()],
             min_nontrivial: 500,
